@@ -180,7 +180,7 @@ PROPS = {
     "C17": dict(
         title="AsyncDAG equals DAG, concurrent awaits are isolated, the loop stays free",
         core=["SIB-DAG", "SIB-EXEC", "SIB-DRIVE"],
-        aux=["SIB-WAIT", "SIB-BLOCK", "OWN-RUN", "SCH-ARMS", "SCH-TASKDONE", "OWN-WRITEBACK", "GT-GATE", "OWN-EXECFLAG", "SCH-OWNTHREAD", "SIB-CTORARGS", "LCK-RUNFREE", "SCH-GUARD"],
+        aux=["SIB-WAIT", "SIB-BLOCK", "OWN-RUN", "SCH-ARMS", "SCH-TASKDONE", "OWN-WRITEBACK", "GT-GATE", "OWN-EXECFLAG", "SCH-OWNTHREAD", "SIB-CTORARGS", "LCK-RUNFREE", "SCH-WAITORDER"],
         explanation="Sibling agreement: DAG/AsyncDAG (and executor, wait-helper) pairs have equal effect summaries; the sync "
                     "flavour drives the same coroutine with all four arguments; no blocking primitive reachable in the coroutine "
                     "while async futures may be in flight (reports the known exception).",
